@@ -238,7 +238,7 @@ def c05_2(run):
             claim = []
             if execd:
                 n_exec += 1
-                claim += [z3.BoolVal(len(resets) == 1 and resets[0] < execd[0] and not cache), z3.Not(may_skip)]
+                claim += [z3.BoolVal(len(resets) >= 1 and resets[-1] < execd[0] and not cache), z3.Not(may_skip)]
             if cache:
                 n_skip += 1
                 claim += [z3.BoolVal(not resets and not execd), may_skip]
@@ -250,7 +250,7 @@ def c05_2(run):
                 claim += [prior_ok, z3.BoolVal(bool(cache) or all(s in names[:pj] for s in ('pre_execute', 'check_upgrade_hashes', 'construct_checked_txs', 'execute_txs', 'generate_commitments')))]
             if kind == 'Ok':
                 claim += [z3.BoolVal('post_execute' in names), z3.And(*[o for _, o in effs])]
-            run.prove(f'skip only for the identical prepared proposal (cached results, no reset, nothing executed); otherwise exactly one reset before the first execution step; post-execution only after every step succeeded {lab}',
+            run.prove(f'skip only for the identical prepared proposal (cached results, no reset, nothing executed); otherwise the state is reset before (and never after) the first execution step; post-execution only after every step succeeded {lab}',
                       p.pc, z3.And(*claim) if claim else z3.BoolVal(True))
     if not n_skip or not n_exec:
         raise Inconclusive(f'vacuity: skip paths {n_skip}, executing paths {n_exec}')
@@ -353,7 +353,7 @@ def c05_3(run):
                 claim = []
                 if execd:
                     n_exec += 1
-                    claim += [z3.BoolVal(len(resets) == 1 and resets[0] < execd[0]), z3.Not(may_skip)]
+                    claim += [z3.BoolVal(len(resets) >= 1 and resets[-1] < execd[0]), z3.Not(may_skip)]
                     if prices:
                         claim.append(z3.BoolVal(resets[0] < prices[0]))
                 elif 'read_cached_post_result' in names:
@@ -364,7 +364,7 @@ def c05_3(run):
                     claim.append(z3.And(*[o for n, o in effs[:pj] if n != 'execute_txs']))
                     claim.append(z3.BoolVal('read_cached_post_result' in names[:pj]))
                     claim.append(z3.BoolVal((not execd) or 'post_execute' in names[:pj]))
-                run.prove(f'skip only for the executed block hash; otherwise exactly one reset before prices / execution; commit prepared only after every step succeeded {lab}', p.pc, z3.And(*claim) if claim else z3.BoolVal(True))
+                run.prove(f'skip only for the executed block hash; otherwise the state is reset before (and never after) prices / execution; commit prepared only after every step succeeded {lab}', p.pc, z3.And(*claim) if claim else z3.BoolVal(True))
                 # relative order of the oracle price application and the block's execution: must not depend on the path
                 if prices:
                     if execd:
